@@ -17,7 +17,7 @@ func init() {
 		NotDecided: "the values operations return.",
 		Run:        runC16})
 	register(&propDef{ID: "C17", Level: "other",
-		Decides:    "range selection is exactly the circular interval (low, high] in both backends: sqlite's norm/wrap query choice and bound arguments are evaluated for every order type of (low, hash, high) and must equal Between(low,hash,high,true); memory filters buckets by that Between test and by nothing else (no other id filter, no early stop); RemoveKeys deletes from every table the migrations create, Export reads and Import writes all three data kinds plus the tracker; sqlite's Import checks len(keys)==len(values) before indexing.",
+		Decides:    "range selection is exactly the circular interval (low, high] in both backends: the prepared statement sqlite's RangeKeys runs (found by executing the function up to the query call, with the statement fields as distinct opaque values) and its bound arguments are evaluated for every order type of (low, hash, high) and must equal Between(low,hash,high,true); memory filters buckets by that Between test and by nothing else (no other id filter, no early stop); RemoveKeys deletes from every table the migrations create, Export reads and Import writes all three data kinds plus the tracker; sqlite's Import checks len(keys)==len(values) before indexing.",
 		NotDecided: "round-trip equality of the values moved.",
 		Run:        runC17})
 	register(&propDef{ID: "C18", Level: "other",
